@@ -54,6 +54,14 @@ Theorem C10_extract_from_script_never_panics :
 Proof. exact extract_from_script_never_panics_lemma. Qed.
 Print Assumptions C10_extract_from_script_never_panics.
 
+(* The rune-wise brace scan of the Go loop stops where a byte-wise scan stops: a multi-byte or
+   invalid UTF-8 sequence can neither hide a brace nor fake one. *)
+Theorem C10_brace_scan_bytewise :
+  forall fuel (s : bytes) pos o c it e n,
+    brace_scan fuel s pos o c it = Ok (e, n) -> e = brace_scan_bytes s pos o c.
+Proof. exact brace_scan_bytewise_lemma. Qed.
+Print Assumptions C10_brace_scan_bytewise.
+
 (* srcset / data-srcset splitting in HTMLAssets: strings.Split(..)[0] is in bounds. *)
 Theorem C10_srcset_never_panics :
   forall v : bytes, exists r, srcset_urls v = Ok r.
